@@ -820,6 +820,114 @@ func (g *Gen) expand(pat string, v View) {
 		}, advance(g.dur("d3", hb, et)), submitAt(a, "write"), advance(hb))
 		st = append(st, lit(Action{Op: "heal", Mode: "deliver"}), advance(g.dur("d4", et, 3*et)))
 		g.push("P24", st...)
+	case "P25": // a leader elected while one voter was away is cut off from everybody; much later it reaches only that lagging voter (whose first answer is a rejection)
+		if leader == "" || len(g.C.others(leader)) < 2 {
+			g.push("P25", advance(et))
+			return
+		}
+		lag := g.pick("laggard", g.C.others(leader))
+		var st []step
+		st = append(st, lit(Action{Op: "isolate", Node: lag, Mode: "drop"}))
+		nw0 := rapid.IntRange(1, 3).Draw(t, "nw0")
+		for i := 0; i < nw0; i++ {
+			st = append(st, submitAt(leader, "write"))
+		}
+		st = append(st, advance(g.dur("d0", hb, 2*hb)))
+		// the leader is deposed; its successor has never talked to the laggard
+		st = append(st, lit(Action{Op: "isolate", Node: leader, Mode: "drop", Dir: "out"}), advance(g.dur("d1", 2*et, 3*et)))
+		succ := ""
+		st = append(st, func(g *Gen, v View) (Action, bool) {
+			succ = newestLeaderExcept(v, leader)
+			if succ == "" || succ == lag {
+				succ = ""
+				return Action{Op: "advance", DurUs: et}, true
+			}
+			return Action{Op: "isolate", Node: succ, Mode: "drop"}, true
+		})
+		st = append(st, lit(Action{Op: "isolate", Node: leader, Mode: "prompt", Dir: "out"}))
+		st = append(st, func(g *Gen, v View) (Action, bool) {
+			if succ == "" {
+				return Action{Op: "advance", DurUs: 1000}, true
+			}
+			// (the successor stays cut off: restore its isolation after the line above touched one of its links)
+			return Action{Op: "isolate", Node: succ, Mode: "drop"}, true
+		})
+		st = append(st, advance(g.dur("d2", 2*et, 3*et, 4*et)))
+		nw := rapid.IntRange(1, 2).Draw(t, "nw")
+		for i := 0; i < nw; i++ {
+			st = append(st, func(g *Gen, v View) (Action, bool) {
+				id := newestLeaderExcept(v, succ)
+				if id == "" || succ == "" {
+					return Action{Op: "advance", DurUs: et}, true
+				}
+				return Action{Op: "submit", Node: id, Kind: "write", Client: g.nextClient(), Timeout: 2000}, true
+			}, advance(g.dur("dw", 20000, hb, 2*hb)))
+		}
+		reads := func() {
+			for _, k := range g.readKinds() {
+				k := k
+				st = append(st, func(g *Gen, v View) (Action, bool) {
+					if succ == "" {
+						return Action{Op: "advance", DurUs: 1000}, true
+					}
+					return Action{Op: "submit", Node: succ, Kind: k, Client: g.nextClient(), Timeout: 1000}, true
+				})
+			}
+		}
+		reads()
+		// only the link between the cut-off leader and the laggard comes back
+		st = append(st, func(g *Gen, v View) (Action, bool) {
+			if succ == "" {
+				return Action{Op: "advance", DurUs: 1000}, true
+			}
+			return Action{Op: "link", Node: succ, Node2: lag, Mode: "prompt"}, true
+		}, func(g *Gen, v View) (Action, bool) {
+			if succ == "" {
+				return Action{Op: "advance", DurUs: 1000}, true
+			}
+			return Action{Op: "link", Node: lag, Node2: succ, Mode: "prompt"}, true
+		})
+		for i := 0; i < 3; i++ {
+			st = append(st, advance(g.dur("dr", 2000, 10000, hb)))
+			reads()
+		}
+		st = append(st, advance(g.dur("d3", hb, et)), lit(Action{Op: "heal", Mode: "deliver"}), advance(g.dur("d4", et, 2*et)))
+		g.push("P25", st...)
+	case "P26": // a newcomer with an empty log is sent the leader's snapshot and dies between two storage operations of the installation
+		if leader == "" {
+			g.push("P26", advance(et))
+			return
+		}
+		spare := ""
+		for i := 0; i < 7; i++ {
+			id := nodeID(i)
+			if cf := v.Conf[leader]; cf != nil {
+				if _, ok := cf.Members[id]; ok {
+					continue
+				}
+			}
+			if n := g.C.Nodes[id]; n != nil && n.everStarted {
+				continue // it has a history; the pattern wants an empty directory
+			}
+			spare = id
+			break
+		}
+		if spare == "" {
+			g.push("P26", advance(et))
+			return
+		}
+		var st []step
+		nw := rapid.IntRange(1, 5).Draw(t, "nw")
+		for i := 0; i < nw; i++ {
+			st = append(st, submitAt(leader, "write"))
+		}
+		st = append(st, advance(g.dur("d0", hb, 2*hb)), lit(Action{Op: "armsnap", Node: leader}), submitAt(leader, "write"), advance(g.dur("d1", hb, et)))
+		st = append(st, lit(Action{Op: "startempty", Node: spare}))
+		st = append(st, lit(Action{Op: "armcrash", Node: spare, K: rapid.IntRange(1, 14).Draw(t, "k"), Before: rapid.Bool().Draw(t, "before")}))
+		st = append(st, lit(Action{Op: "add", Node: leader, Node2: spare, Voter: rapid.Bool().Draw(t, "voter"), Client: g.nextClient(), Timeout: 500}))
+		st = append(st, advance(g.dur("d2", et, 2*et)), lit(Action{Op: "restart", Node: spare}), advance(g.dur("d3", et, 3*et)))
+		st = append(st, submitAt("leader", "write"), advance(g.dur("d4", hb, et)))
+		g.push("P26", st...)
 	case "P10": // membership change under fault
 		g.push("P10", g.membershipSteps(v)...)
 	case "P11": // everything down, a strict majority (or everybody) comes back
